@@ -331,6 +331,7 @@ def trace_cfg(opts):
   TieBreakByOrder = %s
   RevertOrphanTransfer = %s
   ZeroNeedsPlace = TRUE
+  TooBigSkipped = TRUE
   InputSet = {}
   Targets = {%s}
   MaxN = %d
@@ -360,6 +361,7 @@ def model_cfg(spec, props, env, faults, initdisc, live=False):
   TieBreakByOrder = %s
   RevertOrphanTransfer = %s
   ZeroNeedsPlace = TRUE
+  TooBigSkipped = TRUE
   InputSet = {}
   Targets = {1, 2}
   MaxN = 3
@@ -419,6 +421,7 @@ def sim_schedules(sd, faults, per_preset, first_id):
   TieBreakByOrder = %s
   RevertOrphanTransfer = %s
   ZeroNeedsPlace = TRUE
+  TooBigSkipped = TRUE
   InputSet = {}
   Targets = {%s}
   MaxN = %d
